@@ -78,6 +78,8 @@ def main():
         print(out)
         sys.exit(2)
     try:
+        _, head = sh(["git", "-C", wt, "rev-parse", "--short", "HEAD"])
+        head = head.strip()
         rc, out = sh([gomut] + [os.path.join(wt, f) for f in gofiles])
         sites = [json.loads(l) for l in out.splitlines() if l.startswith("{")]
         for s in sites:
@@ -116,7 +118,7 @@ def main():
             src = open(path, "rb").read()
             open(path, "wb").write(src[:s["start"]] + s["repl"].encode() + src[s["end"]:])
             t0 = time.time()
-            res = dict(s, property=a.pid, seed=a.seed)
+            res = dict(s, property=a.pid, seed=a.seed, repo_head=head)
             try:
                 pkg = "./" + os.path.dirname(s["file"])
                 rc, out = sh(["go", "build", "./..."], cwd=wt, timeout=600)
